@@ -264,6 +264,52 @@ fn check(text: &[u8], rep: &mut Reporter, case_idx: u64, slow: bool) {
             (Err(Ok(_)), Ok(_)) => rep.count("edits_still_fitting_rejected", 1),
         }
     }
+    // ---- headers in which magic AND version are foreign (a file from a machine of the other
+    // byte order has every field swapped; a zero-filled or text file has neither): the magic
+    // decides — byte-swapped magic is an endianness error, any other magic a format error,
+    // whatever the version field holds
+    {
+        let swapped_header = |b: &mut [u8]| {
+            for i in 0..6 {
+                let v = rd32(b, i * 4).swap_bytes();
+                wr32(b, i * 4, v);
+            }
+        };
+        let mut cases: Vec<(String, AlignedBuf)> = vec![];
+        for (mname, mv) in [("byte-swapped magic", MAGIC.swap_bytes()), ("zero magic", 0u32), ("magic PRGD", u32::from_le_bytes(*b"PRGD"))] {
+            for vv in [1u32.swap_bytes(), 0, 2, u32::MAX] {
+                let mut e = buf.clone();
+                wr32(e.as_mut_slice(), 0, mv);
+                wr32(e.as_mut_slice(), 4, vv);
+                cases.push((format!("{mname}, version {vv:#x}"), e));
+            }
+        }
+        let mut e = buf.clone();
+        swapped_header(e.as_mut_slice());
+        cases.push(("whole header byte-swapped".into(), e));
+        cases.push(("zero-filled file".into(), AlignedBuf::from_bytes(&vec![0u8; bytes.len().max(24)])));
+        let mut t = text.to_vec();
+        t.resize(t.len().max(24), b'\n');
+        cases.push(("the text mapping itself".into(), AlignedBuf::from_bytes(&t)));
+        for (what, e) in cases {
+            let exp = layout_walk(e.as_slice(), 1);
+            let got = cur::parse_cache(e.as_slice());
+            rep.count("evaluations", 1);
+            rep.count("headers_with_foreign_magic_and_version", 1);
+            let ok = match (&got, &exp) {
+                (Err(Ok(g)), Err(x)) => kind_name(g) == kind_name(x),
+                _ => false,
+            };
+            if !ok {
+                let mut d = Json::obj();
+                d.set("buffer", Json::s(what.clone()));
+                d.set("expected", Json::s(format!("{exp:?}")));
+                d.set("actual", Json::s(format!("{:?}", got.as_ref().map(|_| "accepted"))));
+                let exp_name = exp.as_ref().err().map(kind_name).unwrap_or("?");
+                rep.violation(case_idx, "header-edit", &format!("foreign magic and version: not rejected with {exp_name}"), d);
+            }
+        }
+    }
     if rep.wants_sample() {
         let mut s = Json::obj();
         s.set("layout", Json::s(format!("{layout:?}")));
